@@ -3,7 +3,7 @@ import EaselModel.Dsqdata.CodecLemmas
 import EaselModel.Dsqdata.LoaderLemmas
 import EaselModel.Dsqdata.InPlace
 import EaselModel.Threads.Lemmas
-import EaselModel.Pipeline.Progress
+import EaselModel.Pipeline.WakeSteps
 /-! # C12 — property theorems (statements + glue only; lemmas live in WorkQueue/*.lean, Dsqdata/*.lean)
 
 Work queue (`esl_workqueue.c`): every theorem is about *all* states reachable from `esl_workqueue_Create(size)` by
@@ -281,6 +281,17 @@ theorem pipe_no_deadlock {U T C : Nat} (hU : 0 < U) {s : Pipeline.Sys} (h : Pipe
       Pipeline.readBlocked s = false :=
   let i := Pipeline.reachable_inv2 hU h
   Pipeline.no_deadlock s i.1 i.2 (by rw [Pipeline.reachable_limit h]; omega)
+
+/-- **No lost wake-up.** Whatever the schedule: a loader / unpacker / consumer that is asleep on its condition variable
+    and has not been signalled since it went to sleep is still rightly waiting - the condition it waits for is false
+    (`…Blocked = true`). Hence whenever a sleeper could proceed it has a signal pending, and together with
+    `pipe_no_deadlock` no thread waits for ever while it could make progress. -/
+theorem pipe_no_lost_wakeup {U T C : Nat} (hU : 0 < U) {s : Pipeline.Sys} (h : Pipeline.Reachable U T C s) :
+    (s.lwait = some false → Pipeline.loaderBlocked s = true) ∧
+    (∀ u < s.U, (s.lane u).uwait = some false → Pipeline.unpBlocked s u = true) ∧
+    (s.reader.isSome = true → s.rsig = false → Pipeline.readBlocked s = true) :=
+  let w := Pipeline.reachable_winv hU h
+  ⟨w.lw, w.uw, w.rw⟩
 
 /-- **Buffers are conserved and all destroyed at exit.** Chunk buffers created = live + destroyed; every live buffer
     is in exactly one place (a lane, the recycling stack, a consumer's hands, the loader's hands), `nalloc` counts
